@@ -99,6 +99,8 @@ void BuildMaybeSplit(TA& a, const json& c, Alpha& alpha, Warm warm)
 	first["rules"] = r1;
 	rest["rules"] = r2;
 	rest["fin"] = json::array();
+	// "splitfin": the final states arrive with the second stage (which may then consist of final states only)
+	if (c.value("splitfin", false)) { rest["fin"] = ja["fin"]; first["fin"] = json::array(); }
 	BuildTA(a, first, alpha);
 	SetStage("warm-up on the partial automaton");
 	try { warm(a); } catch (const std::exception&) { }
